@@ -220,7 +220,7 @@ def _cases(draw):
             atoms.append(stmt[1])
         elif stmt[0] == "pfact":
             atoms.append(stmt[2])
-        else:
+        elif stmt[0] == "ad":
             atoms += [a for _, a in stmt[1]]
         if stmt[0] in ("rule", "ad"):
             atoms += [[l[1], l[2]] for l in stmt[2]]
